@@ -186,6 +186,37 @@ def task_electron_count(pr, repo):
             got = (at.attrs['number_of_protons_to_add'], at.attrs['steric_number'])
             if got != (want_h, want_s):
                 bad.append(((res, name, term, n_h), got, (want_h, want_s)))
+        # the two pi-electron tables (double/triple bonds, conjugated bonds) are applied independently of each other: an entry in one
+        # never hides the entry in the other (SYBYL N.pl3 is in both)
+        T = bm.attrs
+        badp = []
+        lig_types = sorted(set(T['num_pi_elec_bonds_ligands']) | set(T['num_pi_elec_conj_bonds_ligands']) | {'C.3'})
+        for sy in lig_types:
+            at = record('lig_' + sy, A, type='hetatm', res_name='LIG', name='X1', element=sy.split('.')[0], sybyl_type=sy,
+                        num_pi_elec_2_3_bonds=0, num_pi_elec_conj_2_3_bonds=0, bonded_atoms=[record('n0', A, element='C'), record('n1', A, element='C')])
+            ex.call_function(repo.func('propka.bonds.BondMaker.add_pi_electron_table_info'), [[at]], self_obj=bm)
+            want = (T['num_pi_elec_bonds_ligands'].get(sy, 0), T['num_pi_elec_conj_bonds_ligands'].get(sy, 0))
+            if (at.attrs['num_pi_elec_2_3_bonds'], at.attrs['num_pi_elec_conj_2_3_bonds']) != want:
+                badp.append((sy, (at.attrs['num_pi_elec_2_3_bonds'], at.attrs['num_pi_elec_conj_2_3_bonds']), want))
+        keys = sorted(set(T['num_pi_elec_bonds_sidechains']) | set(T['num_pi_elec_conj_bonds_sidechains']))
+        names_bb = sorted(set(T['num_pi_elec_bonds_backbone']) | set(T['num_pi_elec_conj_bonds_backbone']))
+        for key in keys + ['ALA-' + n for n in names_bb]:
+            res, nm = key.split('-')
+            for nbonds in (1, 2):
+                at = record('prot_' + key, A, type='atom', res_name=res, name=nm, element=nm[0], sybyl_type='',
+                            num_pi_elec_2_3_bonds=0, num_pi_elec_conj_2_3_bonds=0, bonded_atoms=[record('n%d' % i, A, element='C') for i in range(nbonds)])
+                ex.call_function(repo.func('propka.bonds.BondMaker.add_pi_electron_table_info'), [[at]], self_obj=bm)
+                w1 = T['num_pi_elec_bonds_backbone'].get(nm, T['num_pi_elec_bonds_sidechains'].get(key, 0))
+                w2 = T['num_pi_elec_conj_bonds_sidechains'].get(key, 0)
+                if nm in T['num_pi_elec_conj_bonds_backbone'] and nbonds > 1:
+                    w2 = T['num_pi_elec_conj_bonds_backbone'][nm]
+                if (at.attrs['num_pi_elec_2_3_bonds'], at.attrs['num_pi_elec_conj_2_3_bonds']) != (w1, w2):
+                    badp.append((key, nbonds, (at.attrs['num_pi_elec_2_3_bonds'], at.attrs['num_pi_elec_conj_2_3_bonds']), (w1, w2)))
+        ctx.oblige('PT: add_pi_electron_table_info gives every atom the entries of BOTH pi-electron tables (bonds and conjugated bonds) for '
+                   'its SYBYL type (hetero atoms, %d types) or residue-atom key / backbone name (%d keys)' % (len(lig_types), len(keys) + len(names_bb)),
+                   not badp)
+        if badp:
+            ctx.notes.append(str(badp[:4]))
         ctx.oblige('EC: hydrogens to add / steric number for His ND1, NE2 (1,3); Arg NE (1,3), NH1, NH2 (2,3); Asn ND2, Gln NE2 (2,3); '
                    'Trp NE1 (1,3); backbone N (1,3); Lys NZ (3,4); N-terminus (3,4)', not bad)
         if bad:
@@ -206,7 +237,12 @@ def task_counts(pr, repo):
         return xyz('w%d' % k[0], V)
     ex.contracts['propka.protonate.rotate_vector_around_an_axis'] = lambda ex, ctx, fi, a, kk, so: fresh_vec()
     ex.contracts['propka.vector_algebra.rotate_vector_around_an_axis'] = lambda ex, ctx, fi, a, kk, so: fresh_vec()
-    ex.contracts[P + '.set_bond_distance'] = lambda ex, ctx, fi, a, kk, so: fresh_vec()
+    looked_up = []
+
+    def sbd(ex, ctx, fi, a, kk, so):
+        looked_up.append(a[1] if len(a) > 1 else kk.get('element'))
+        return fresh_vec()
+    ex.contracts[P + '.set_bond_distance'] = sbd
     ex.contracts['propka.vector_algebra.Vector.rescale'] = lambda ex, ctx, fi, a, kk, so: fresh_vec()
     ex.contracts['propka.vector_algebra.Vector.orthogonal'] = lambda ex, ctx, fi, a, kk, so: fresh_vec()
     ex.contracts[P + '.set_steric_number_and_lone_pairs'] = lambda ex, ctx, fi, a, kk, so: None
@@ -222,7 +258,11 @@ def task_counts(pr, repo):
                     for n_ in nbs:
                         n_.attrs['bonded_atoms'][0] = at
                     pro = protonator(ex, repo)
+                    del looked_up[:]
                     ex.call_function(repo.func(P + '.add_protons'), [at], self_obj=pro)
+                    ctx.oblige('BD(call)[%s, %d bond(s), %d to add]: the X-H length of every hydrogen is looked up for the element of the '
+                               'atom that is protonated (N here), never for a neighbour (C)' % (meth, nb, nprot),
+                               all(e == 'N' for e in looked_up))
                     added = [a for a in at.attrs['bonded_atoms'] if a.attrs.get('element') == 'H']
                     want = min(nprot, steric - nb) if nb >= 1 else 0
                     ctx.oblige('CT[%s, %d bond(s), %d to add]: adds min(protons to add, free positions) = %d hydrogens (none for an atom '
